@@ -157,6 +157,9 @@ type Executor struct {
 	curFrame   *Frame
 	curTokPos  token.Pos // position of the instruction being executed (lexical lookup of locals in at-call clauses)
 	callResults map[string]Val // results of the calls made so far by the top-level function, by callee name
+	callReach   map[string]string // path condition under which each of those calls is reached
+	callCount   map[string]int
+	callArgs    map[string][]Val // arguments of those calls (receiver first)
 }
 
 func (x *Executor) recordWrite(comp string) {
@@ -364,8 +367,26 @@ func (x *Executor) mergeStates(ins []incoming) *State {
 		}
 		if same && terms[0] != "" {
 			out.ghost[g] = terms[0]
+			continue
 		}
-		// differing ghost values: dropped (conservative: a later use re-havocs)
+		// differing ghost values present on every incoming path: merged like a heap component
+		all := true
+		for _, t := range terms {
+			if t == "" {
+				all = false
+			}
+		}
+		if all {
+			t := terms[len(terms)-1]
+			for i := len(terms) - 2; i >= 0; i-- {
+				if terms[i] == t {
+					continue
+				}
+				t = fmt.Sprintf("(ite %s %s %s)", ins[i].cond, terms[i], t)
+			}
+			out.ghost[g] = t
+		}
+		// missing on some path: dropped (conservative: a later use re-havocs)
 	}
 	// defers: must agree
 	out.defers = append([]deferred{}, ins[0].st.defers...)
